@@ -641,6 +641,17 @@ func (e *Env) call(n *ECall) (tv, error) {
 				if n.Fn == "cap" {
 					return tv{t: fmt.Sprintf("(scap %s)", a.t), ty: stInt}, nil
 				}
+				// a slice value of the program has a non-negative length: stated for ground terms the clause reads from the
+				// heap (the code learns the same fact when it loads the slice; a clause may be evaluated before that load)
+				if e.heapParams == nil && e.sc != nil && e.st != nil && !strings.Contains(a.t, "q_") && strings.Contains(a.t, "select") {
+					if e.sc.lenFacts == nil {
+						e.sc.lenFacts = map[string]bool{}
+					}
+					if !e.sc.lenFacts[a.t] {
+						e.sc.lenFacts[a.t] = true
+						e.sc.emit("(assert (>= (slen %s) 0))", a.t)
+					}
+				}
 				return tv{t: fmt.Sprintf("(slen %s)", a.t), ty: stInt}, nil
 			case *types.Map:
 				if e.heapParams != nil {
